@@ -159,3 +159,29 @@ Print Assumptions C08_exactly_once.
 Theorem C08_posq_iso_bounded : forallb same_run (all_seqs 4 0) = true.
 Proof. exact posq_iso_bounded. Qed.
 Print Assumptions C08_posq_iso_bounded.
+
+(* The unbounded statement (Sched/PosIsoProofs.v): for EVERY operation sequence over
+   append / popleft / find(h, remove?) / remove(h) / insert_pos(p, h) / call_pos(p, h) / items
+   in which a handle enters the queue as a new object (wf_from: the h of an append, insert_pos
+   or call_pos has not been used before), the PosPriorityQueue model driven with equal
+   priorities (PosQ: priority 0 for every handle, boost factor 0) and the list queue (ListQ:
+   the deque operations of the stock / scheduling loops) produce the same result, the same
+   length and the same run order after every operation.  The invariant behind it (RZ): the run
+   order of the priority queue = the list, regular entries all have priority 0 (so the arrival
+   sequence decides), positional inserts re-sequence consistently, no object is queued twice. *)
+From Asynkit Require Import Sched.PosIsoProofs.
+Theorem C08_posq_iso : forall ops : list qop, wf_from [] ops -> same_run ops = true.
+Proof. exact posq_iso. Qed.
+Print Assumptions C08_posq_iso.
+
+(* the same, state by state: related queues stay related and answer alike *)
+Theorem C08_posq_iso_step : forall p l o,
+  RZ p l -> fresh_ok l o ->
+  exists r p' l', qstep PosQ p o = (r, p') /\ qstep ListQ l o = (r, l') /\ RZ p' l' /\
+    qi_len PosQ p' = qi_len ListQ l' /\ qi_order PosQ p' = qi_order ListQ l'.
+Proof.
+  intros p l o HR Hf. destruct (qstep_iso p l o HR Hf) as (r & p' & l' & E1 & E2 & HR' & _).
+  exists r, p', l'. split; [exact E1|]. split; [exact E2|]. split; [exact HR'|].
+  split; [apply RZ_len | apply RZ_order]; exact HR'.
+Qed.
+Print Assumptions C08_posq_iso_step.
